@@ -31,6 +31,9 @@ type node struct {
 
 	// The current state of the runnable in this node.
 	state nodeState
+	// Whether the goroutine started for the current incarnation of this node has returned (ie. its death has been
+	// processed). A runnable can signal DONE long before it returns, so the state alone does not tell.
+	exited bool
 
 	// Backoff used to keep runnables from being restarted too fast.
 	bo *backoff.ExponentialBackOff
@@ -171,6 +174,7 @@ func (n *node) reset() {
 
 	// Clear children and state
 	n.state = nodeStateNew
+	n.exited = false
 	n.children = make(map[string]*node)
 	n.groups = nil
 
